@@ -442,3 +442,8 @@ CHECKS["C20"]["harnesses"] += [H_CRASH_RESTORE]
 CHECKS["C20"]["assumptions"] = CHECKS["C20"]["assumptions"] + [CRASH_NOTE]
 CHECKS["C13"]["harnesses"] += [H_HB_READDR]
 CHECKS["C18"]["harnesses"] += [H_NOOP_FAULT]
+H_CRASH_AECFG = {"fn": "vh_crash_ae_config", "what": "appendEntries cutting / replacing a configuration entry x crash point x real NewRaft: the recovered latest configuration is the last configuration entry of the durable log above the snapshot, else the snapshot's",
+                 "bounds": "follower log of 2 entries with an uncommitted configuration entry, 1 conflicting request entry (Command or Configuration), <=4 crash points (checked)",
+                 "covers": ["crash.aeconfig.before-truncation", "crash.aeconfig.truncated", "crash.aeconfig.new-config-stored"]}
+CHECKS["C10"]["harnesses"].append(H_CRASH_AECFG)
+CHECKS["C07"]["harnesses"].append(H_CRASH_AECFG)
